@@ -56,7 +56,7 @@ func installPureFuncs(e *Env) {
 }
 
 func c08Envs(rng *rand.Rand) []*Env {
-	envs := []*Env{baseEnv(), boundaryEnv(), randomEnv(rng), randomEnv(rng)}
+	envs := []*Env{baseEnv(), boundaryEnv(), scrambledEnv(), randomEnv(rng)}
 	for _, e := range envs {
 		installPureFuncs(e)
 	}
@@ -184,6 +184,13 @@ func c08Child() {
 	opts["mapenv+opt"] = []expr.Option{expr.Env(menv), expr.Optimize(true)}
 	modeNames := []string{"untyped", "typed", "typed+opt", "mapenv+opt"}
 
+	// everything shared is snapshotted before the first run
+	envSnap := make([]string, len(envs))
+	for i, e := range envs {
+		envSnap[i] = deepSnapshot(e)
+	}
+	menvSnap := deepSnapshot(menv)
+
 	// sequential reference: programs and results
 	var progs []c08Prog
 	for _, src := range srcs {
@@ -229,12 +236,6 @@ func c08Child() {
 	for i := 0; i < 6 && i < len(progs); i++ {
 		cr.Samples = append(cr.Samples, progs[(i*131+7)%len(progs)].Src)
 	}
-	envSnap := make([]string, len(envs))
-	for i, e := range envs {
-		envSnap[i] = deepSnapshot(e)
-	}
-	menvSnap := deepSnapshot(menv)
-
 	var mu sync.Mutex // guards cr.Mismatches only (taken after a goroutine has finished its work)
 	report := func(ms []c08Mismatch) {
 		mu.Lock()
@@ -442,7 +443,7 @@ func runC08() {
 		rep.Histogram["race reports"] = n
 		rep.fail(Failure{Key: "C08-race", What: fmt.Sprintf("the Go race detector reports %d data race(s) while goroutines share compiled programs / environments / options", n),
 			Input: map[string]interface{}{"seed": *seed, "tier": *tier, "library frames": frames}, Want: "no unsynchronised access to shared state",
-			Got: tail(first, 2500), Replay: replayArg})
+			Got: head(first, 2500), Replay: replayArg})
 	}
 	if !cr.Finished {
 		what := "the race-enabled child did not finish"
